@@ -26,7 +26,9 @@ FOut(L, depth, mask) ==
       \o [ i \in DOMAIN SetToSeq(L) |-> [ name |-> "c" \o ToString(SetToSeq(L)[i]), ty |-> V4, io |-> Loc(SetToSeq(L)[i]) ] ]
       \o (IF mask THEN << [ name |-> "mask", ty |-> [ k |-> "scalar", s |-> "u32" ], io |-> Bi("sample_mask") ] >> ELSE << >>) ]
 
-ParamAtoms == { [ k |-> "struct", name |-> "a", ty |-> "VertexA" ], [ k |-> "struct", name |-> "b", ty |-> "InstanceB" ],
+VI == [ name |-> "Indices", members |-> << [ name |-> "vertex", ty |-> [ k |-> "scalar", s |-> "u32" ], io |-> Bi("vertex_index") ],
+                                          [ name |-> "instance", ty |-> [ k |-> "scalar", s |-> "u32" ], io |-> Bi("instance_index") ] >> ]
+ParamAtoms == { [ k |-> "struct", name |-> "a", ty |-> "VertexA" ], [ k |-> "struct", name |-> "b", ty |-> "InstanceB" ], [ k |-> "struct", name |-> "idx", ty |-> "Indices" ],
                 [ k |-> "builtin", name |-> "vi", b |-> "vertex_index" ], [ k |-> "loc", name |-> "extra", n |-> 7, ty |-> F32 ] }
 StructAtoms == { x \in ParamAtoms : x.k = "struct" }
 ParamSeqs == { s \in UNION { [ 1 .. n -> ParamAtoms ] : n \in 0 .. 3 } : \A i, j \in DOMAIN s : i # j => s[i] # s[j] }
@@ -42,8 +44,8 @@ Base(structs, entries) ==
     consts |-> << [ name |-> "N", expr |-> "4u" ] >>, entries |-> entries ]
 
 Shaders ==
-  { Base(<< VA, VB >>, << VEntry("vs_main", ps) >>) : ps \in ParamSeqs }
-  \cup UNION { { Base(<< VA, VB >>, << VEntry("vs_one", << p >>), VEntry("vs_two", << q, p >>) >>) : q \in StructAtoms \ {p} } : p \in StructAtoms }
+  { Base(<< VA, VB, VI >>, << VEntry("vs_main", ps) >>) : ps \in { q \in ParamSeqs : ~(\E i, j \in DOMAIN q : i # j /\ q[i].k = "builtin" /\ q[j].k = "struct" /\ q[j].ty = "Indices") } }
+  \cup UNION { { Base(<< VA, VB, VI >>, << VEntry("vs_one", << p >>), VEntry("vs_two", << q, p >>) >>) : q \in StructAtoms \ {p} } : p \in StructAtoms }
   \cup { Base(<< >>, << FEntryNone("fs_none") >>) }
   \cup { Base(<< >>, << FEntry("fs_loc", [ k |-> "loc", n |-> n, ty |-> V4 ]) >>) : n \in {0, 1, 3} }
   \cup { Base(<< >>, << FEntry("fs_depth", Bi("frag_depth")) >>) }
